@@ -358,6 +358,11 @@ func runStoreCase(self string, c *stCase) stObs {
 	for i := 0; i < 2; i++ {
 		vclockSet(int64(9 + i))
 		m := stManager(sd)
+		if i == 0 && (c.Cut+c.Bytes+len(c.A)+len(c.B))%2 == 0 {
+			// at the first start the shard's Prometheus is not up yet (the usual order in a pod): the reload the
+			// start asks for fails; what is resumed is the same
+			m.AddUpdateCallbacks(func(map[string][]*target.Target) error { return fmt.Errorf("scripted: prometheus is not up") })
+		}
 		st := stStart{}
 		if err := m.Load(); err != nil {
 			st.OK = false
